@@ -132,7 +132,7 @@ def cast_cell(v, dt, src=None):
                 ok = T.b_and(T.icmp(v, lo, '>='), T.icmp(v, hi, '<='))
                 if not _b.bool(ok):
                     raise OverflowError('Python int too large to convert to C long')
-                return T.refine(v, lo, hi) or v
+                return T.refine_or(v, lo, hi)
             bits = dt.itemsize * 8
             w = T.imod_pow2(v, bits)
             if k == 'u':
@@ -1708,13 +1708,15 @@ def binary_repr(num, width=None):
         return _np.binary_repr(int(num), width)
     neg = num < 0                       # forks when the sign is undecided
     if not neg:
-        num = T.refine(num, 0, num.hi) or num
+        num = T.refine_or(num, 0, num.hi)
+        if not _isinstance(num, SInt):
+            return _np.binary_repr(int(num), width)
         if width is None:
             return S.to_base_var(num, 1)
         if num.hi.bit_length() > width:
             if not (num < (1 << width)):
                 raise ValueError('Insufficient bit width=%d provided for binary_repr' % width)
-            num = T.refine(num, 0, (1 << width) - 1) or num
+            num = T.refine_or(num, 0, (1 << width) - 1)
             return S.to_base_fixed(num, 1, width)
         return S.to_base_fixed(num, 1, width)
     if width is None:
@@ -1732,7 +1734,7 @@ def base_repr(number, base=2, padding=0):
         return _np.base_repr(int(number), base, padding)
     if number < 0:
         return S.norm(['-'] + S.chars_of(base_repr(T.ineg(number), base, padding)))
-    number = T.refine(number, 0, number.hi) or number
+    number = T.refine_or(number, 0, number.hi)
     if not _isinstance(number, SInt):
         return _np.base_repr(int(number), base, padding)
     if base & (base - 1) == 0:
